@@ -9,18 +9,19 @@ Clauses (from the statement):
   _close_run(msg) for key k, several runs open              : k's own span ended exactly once with the exit_status /
                                                                reason of that message; every other span untouched
   _destroy_open_run_tracing_spans                           : every span in the view ended exactly once; view empty
-  epilogue (structural obligation on `_run`'s finally)      : every run the engine closes itself also gets its span
-                                                               ended through _close_run_trace for that run key
+  whole call (T2: real __call__ / _run / requests, arbitrary plan, bundlers whose close_run / open_run may fail, abort / stop /
+  halt / pause from other threads; second half of this file):
+      every opened run got exactly one span; once the engine is idle each has been ended exactly once and carries the exit status
+      its run ended with (the stop that went out, else the last attempt) - also for runs the clean-up closes and when that close
+      fails; nothing stays registered on the engine; while the plan is running the span of an open run is un-ended
 """
-import ast
-
 from .lib import *
 from .re_lib import *
 
 PROP = "C42"
 TRUSTED = EM_ASSUMPTIONS + ["opentelemetry: tracer.start_span returns a fresh span; set_attribute / end only record (recording fake)",
                             "_set_span_msg_attributes and logger calls are effect-free (A-LOG)"]
-NOT_DECIDED = "the order in which `_run`'s epilogue and an abort/halt request end the spans (T2)"
+NOT_DECIDED = ""          # (set below, after the T2 part)
 
 
 def open_runs(I, env, re_, keys, spans):
@@ -138,23 +139,212 @@ def destroy_spans(I):
             all(ended(s) == 1 for s in view.values()) and len(re_._run_tracing_spans) == 0, {"replay": "tracing.spans"})
 
 
-@task("_run.epilogue.spans", PROP, functions=[f"{RE}._run"],
-      expect=[f"{RE}._run#ensures[runs closed by the engine during cleanup also end their span via _close_run_trace(run key)]"])
-def epilogue_spans(I):
-    """structural obligation on the finally block of _run: in the loop that closes still-open runs, the span of
-    that run key is ended (a call of self._close_run_trace with a message whose run is the loop's key)"""
-    w = I.w
-    m, chain, node = I.P.find_function(f"{RE}._run")
-    ok = False
-    for loop in [n for n in ast.walk(node) if isinstance(n, ast.For) and ast.unparse(n.iter) == "self._run_bundlers.items()"]:
-        src = ast.unparse(loop)
-        if "close_run(" not in src:
-            continue
-        key = ast.unparse(loop.target.elts[0]) if isinstance(loop.target, ast.Tuple) else None
-        for c in ast.walk(loop):
-            if isinstance(c, ast.Call) and ast.unparse(c.func) == "self._close_run_trace" and c.args:
-                arg = ast.unparse(c.args[0])
-                if key and f"run={key}" in arg.replace(" ", ""):
-                    ok = True
-    w.check(f"{RE}._run#ensures[runs closed by the engine during cleanup also end their span via _close_run_trace(run key)]", ok,
-            {"replay": "tracing.spans"})
+# (the former *structural* obligation on `_run`'s finally block - "the clean-up loop contains a call self._close_run_trace(Msg(..., run=key))" -
+# is replaced by the T2 tasks below, which execute that block: the syntactic test rejected harmless rewrites of the loop (renamed loop
+# variables, the message bound to a local first) and accepted a call that is skipped when closing the run fails)
+
+
+# ------------------------------------------------------------------------------------------------ T2: the whole call, real _run
+# The statement quantifies over plans and schedules (interleaved run keys, failures, interruptions) and says that *whatever happens* each
+# opened run has one span, ended once, with that run's own exit status - "including ... when the engine closes a run during cleanup".
+# The tasks below execute the real RunEngine.__call__ / _run (prologue, message loop, exception ladder, the whole epilogue) / _open_run /
+# _close_run / _close_run_trace / abort / stop / halt / request_pause / resume on the asyncio model of contracts/aio.py with
+#   * an arbitrary plan over open_run / close_run messages for two run keys (with and without an explicit exit status) that may also
+#     return, raise, and handle or re-raise whatever is thrown into it,
+#   * run bundlers whose close_run may *fail* (the delivery of the stop document raises: a subscriber in strict mode, a schema rejection);
+#     the run then stays open (contract of RunBundler.close_run: run_is_open is cleared last) - in one scenario open_run may fail too,
+#     before or after the start document went out,
+#   * requests of other threads (abort / stop / halt / pause, then resume / abort / stop / halt) landing between any two steps of the loop.
+from .t2 import t2_tasks, TRUSTED_T2                                   # noqa: E402
+from .run_lib import Bundler                                           # noqa: E402
+from .run_scn import ALPHABET, msg as _msg                             # noqa: E402
+from .run_mon2 import Mon                                              # noqa: E402
+
+ALPHABET.setdefault("close_run_fail", _msg("close_run", exit_status="fail", reason="gave up"))
+ALPHABET.setdefault("close_run_b_abort", _msg("close_run", run="b", exit_status="abort", reason="not needed"))
+
+TRUSTED = TRUSTED + TRUSTED_T2 + [
+    "T2 uses the contract of RunBundler (C01, C19): close_run either emits the stop with the message's exit_status (default 'success') and reports the "
+    "run closed, or raises and leaves run_is_open set (run_is_open is cleared after the stop went out); it may fail any number of times; open_run "
+    "either emits the start and reports the run open, or raises - before the start went out (run not open) or after (run open)",
+    "A-RUNS: at most two runs (run keys None and 'b') are opened per call in the T2 tasks",
+    "A-ENV: at most one request of another thread is in flight at a time; one pause request per call in the pause scenario (followed by the "
+    "user's resume / abort / stop / halt)",
+]
+NOT_DECIDED = ("suspensions (request_suspend) and more than two simultaneously open runs in the whole-call (T2) tasks; the `reason` attribute of spans "
+               "ended by the engine's clean-up (only the exit status is in the statement); real preemptive threads")
+
+S_ONE = (f"{RE}.__call__#ensures[every run opened during the call got exactly one span, started while its open_run was processed; an open_run that "
+         "is rejected leaves no un-ended span]")
+S_END = (f"{RE}.__call__#ensures[once the engine is idle every opened run's span has been ended exactly once and carries that run's own exit status - "
+         "also when the run was closed by the engine's clean-up, also when closing it failed, also after abort / stop / halt]")
+S_LEAK = f"{RE}.__call__#ensures[once the engine is idle no span is left registered on the engine]"
+S_EARLY = f"{RE}._run#ensures[whenever the plan yields a message the span of every run that is still open is un-ended]"
+
+
+def _status_of(m):
+    return m.kwargs.get("exit_status", "success") or "success"
+
+
+class C42Mon(Mon):
+    """ghost: which spans were started while which open_run message was processed; the outcome of a run = the exit status of the
+    close_run that closed it, or - if no close_run ever got through - of the last attempt (the engine's own, in its clean-up)"""
+    fields = ("window", "summary")
+
+    def __init__(self, sc, tr):
+        self.sc, self.tr, self.I, self.w, self.eng = sc, tr, sc.I, sc.w, sc.eng
+        self.window = None            # (number of spans, number of bundlers) when the open_run being processed was yielded
+        self.span_of = {}             # bundler idx -> spans started while its open_run was processed
+        self.orphans = []             # spans started by an open_run that was rejected
+        self.attempt = {}             # bundler idx -> exit status of the last close_run attempted on it
+        self.hist = []                # diagnostic only
+        self.violated = False
+
+    @property
+    def summary(self):
+        """the part of the ledgers the obligations depend on (bounded: A-RUNS; part of the closure key - spans are opaque tokens there)"""
+        def st(sp):
+            return (ended(sp), sp.attrs["$attrs"].get("exit_status"))
+        return (tuple((i, tuple(st(s) for s in sps)) for i, sps in sorted(self.span_of.items())), tuple(st(s) for s in self.orphans),
+                tuple(sorted(self.attempt.items())))
+
+    def info(self, **more):
+        return dict({"replay": "tracing.call_replay", "requests": list(self.sc.requests), "scenario": getattr(self.sc, "info", {}).get("scenario"),
+                     "history": [list(h) for h in self.hist]}, **more)
+
+    def close_window(self):
+        if self.window is None:
+            return
+        n_sp, n_b = self.window
+        self.window = None
+        new_sp, new_b = self.eng.spans[n_sp:], self.eng.bundlers[n_b:]
+        if len(new_b) > 1:
+            raise EngineError("one open_run message created two bundlers")
+        if new_b:
+            self.span_of[new_b[0].idx] = list(new_sp)
+            self.req(S_ONE, len(new_sp) == 1, self.info(run=new_b[0].idx, spans=len(new_sp), what="accepted open_run"))
+        else:
+            self.orphans.extend(new_sp)
+            self.req(S_ONE, all(ended(s) >= 1 for s in new_sp), self.info(spans=len(new_sp), what="rejected open_run"))
+
+    def req(self, name, cond, info):
+        if not self.w.check(name, cond, info):
+            self.violated = True
+
+    def __call__(self, kind, *a):
+        self.on(kind, *a)
+        if self.violated:
+            # a path on which an obligation has failed is not explored further (the ledgers of a broken engine need not stay bounded)
+            raise PathEnd("C42 obligation violated")
+
+    def on(self, kind, *a):
+        eng, w, tr = self.eng, self.w, self.tr
+        if kind in ("plan-yield", "replay-yield", "plan-send", "plan-throw", "plan-return", "plan-raise", "plan-close", "replay-done", "replay-raise", "returned"):
+            self.close_window()
+        if kind in ("plan-yield", "replay-yield"):
+            early = [b.idx for b in eng.bundlers if b.open and any(ended(s) for s in self.span_of.get(b.idx, []))]
+            self.req(S_EARLY, not early, self.info(runs=early, next_message=a[1].command))
+            self.hist.append(("yield", a[1].command, a[1].run, dict(a[1].kwargs)))
+            if a[1].command == "open_run":
+                self.window = (len(eng.spans), len(eng.bundlers))
+        elif kind in ("close_run", "close_run-refused"):
+            self.attempt[a[0].idx] = _status_of(a[1])
+            self.hist.append((kind, a[0].idx, _status_of(a[1])))
+            if kind == "close_run-refused":
+                if tr.plan_outcome is None:
+                    w.cover("a close_run of the plan fails")
+                else:
+                    w.cover("clean-up: closing a run fails")
+                    if sum(1 for b in eng.bundlers if b.open) > 1:
+                        w.cover("clean-up: closing a run fails while another run is open too")
+        elif kind == "open_run-refused":
+            self.hist.append((kind, a[0].idx, a[2]))
+            w.cover("open_run fails " + a[2])
+        elif kind == "request":
+            self.hist.append(("request", a[0], eng.state))
+        if kind == "returned" and eng.state == "idle":
+            bad = []
+            for b in eng.bundlers:
+                want = b.stop["exit_status"] if b.stop is not None else self.attempt.get(b.idx)
+                for s in self.span_of.get(b.idx, []):
+                    got = s.attrs["$attrs"].get("exit_status")
+                    if ended(s) != 1:
+                        bad.append(f"run #{b.idx}: span ended {ended(s)} times")
+                    elif want is not None and got != want:
+                        bad.append(f"run #{b.idx}: span carries exit_status {got!r}, the run ended as {want!r}")
+            if eng.bundlers and tr.term_requested:
+                w.cover("a run was opened in a call that was " + "/".join(sorted(tr.term_requested)) + "-ed")
+            if len(eng.bundlers) > 1 and any(self.attempt.get(b.idx) != self.attempt.get(eng.bundlers[0].idx) for b in eng.bundlers):
+                w.cover("two runs ending with different exit statuses")
+            self.req(S_END, not bad, self.info(problems=bad, call=a[0]))
+            left = self.I.getattr(self.sc.re, "_run_tracing_spans")
+            self.req(S_LEAK, len(left) == 0 and all(ended(s) >= 1 for s in self.orphans), self.info(left=len(left), call=a[0]))
+
+
+def fallible_bundlers(sc, open_may_fail=False):
+    """the engine's RunBundler: the abstract bundler of contracts/run_lib.py whose close_run (and open_run) may fail"""
+    eng, w = sc.eng, sc.w
+
+    def boom(text, lab):
+        return PyRaise(Obj(BUILTIN_CLASSES["RuntimeError"], {"args": (text,), "__cause__": None}, label=w.fresh(lab)))
+
+    def mk(I_, a, k):
+        b = Bundler(eng, a[0], a[1])
+        plain_close, plain_open = b.facade.spec["methods"]["close_run"], b.facade.spec["methods"]["open_run"]
+
+        def close(I2, o, a2, k2):
+            if b.open and w.choose(["ok", "raise"], "close_run outcome") == "raise":
+                eng.event("close_run-refused", b, a2[0])
+                raise boom("the stop document was not delivered", "close_error")
+            return plain_close(I2, o, a2, k2)
+
+        def open_(I2, o, a2, k2):
+            c = w.choose(["ok", "before the start document went out", "after the start document went out"], "open_run outcome")
+            if c == "ok":
+                return plain_open(I2, o, a2, k2)
+            if c.startswith("after"):
+                plain_open(I2, o, a2, k2)
+            eng.event("open_run-refused", b, a2[0], c)
+            raise boom("the start document was not delivered", "open_error")
+        b.facade.spec["methods"]["close_run"] = close
+        if open_may_fail:
+            b.facade.spec["methods"]["open_run"] = open_
+        return b.facade
+    w.stubs[(MR, "RunBundler")] = native(mk)
+
+
+def c42_checks(sc, tr):
+    fallible_bundlers(sc)
+    tr.checks.append(C42Mon(sc, tr))
+
+
+def c42_checks_open(sc, tr):
+    fallible_bundlers(sc, open_may_fail=True)
+    tr.checks.append(C42Mon(sc, tr))
+
+
+RUNS = "open_run,close_run,close_run_fail,open_run_b,close_run_b,close_run_b_abort"
+T2_C42 = [f"{RE}._close_run_trace", f"{RE}._destroy_open_run_tracing_spans"]
+t2_tasks(PROP, "call.spans", [(RUNS, "", {})], [c42_checks], expect=[S_ONE, S_END, S_LEAK, S_EARLY], functions=T2_C42,
+         covers=["a close_run of the plan fails", "clean-up: closing a run fails", "clean-up: closing a run fails while another run is open too",
+                 "two runs ending with different exit statuses"])
+t2_tasks(PROP, "call.spans.open_fails", [("open_run,close_run,open_run_b", "", {})], [c42_checks_open], expect=[S_ONE, S_END, S_LEAK, S_EARLY], functions=T2_C42,
+         covers=["open_run fails before the start document went out", "open_run fails after the start document went out", "clean-up: closing a run fails"])
+for _k in ("abort", "halt", "stop"):
+    t2_tasks(PROP, "call.spans", [("open_run,close_run,open_run_b", _k, {})], [c42_checks], expect=[S_ONE, S_END, S_LEAK, S_EARLY], functions=T2_C42,
+             covers=[f"a run was opened in a call that was {_k}-ed", "clean-up: closing a run fails"])
+t2_tasks(PROP, "call.spans", [("open_run,close_run,open_run_b,checkpoint", "pause", {"max_requests": 1})], [c42_checks], expect=[S_ONE, S_END, S_LEAK, S_EARLY],
+         functions=T2_C42, covers=["a run was opened in a call that was abort-ed", "a run was opened in a call that was halt-ed", "a close_run of the plan fails"])
+
+
+def _twin(sc, tr):
+    fallible_bundlers(sc)
+
+    def check(kind, *a):
+        if kind == "returned" and sc.eng.state == "idle":
+            sc.w.check("twin:every span ends with exit_status success", all(s.attrs["$attrs"].get("exit_status") == "success" for s in sc.eng.spans))
+    tr.checks.append(check)
+
+
+t2_tasks(PROP, "twin", [("open_run,close_run", "", {})], [_twin], twin="twin:every span ends with exit_status success")
+
